@@ -79,7 +79,18 @@ func checkC17(r *report.Report, tier string, seed int64) error {
 	opt.MaxInterfaces = 3
 	opt.MaxFields = 3
 	opt.Explicit = 0.2
+	opt.Embedding = 0.2
 	r.Rule = "input files mixing marked, unmarked and Convergen-named interfaces in random order, sibling files of the package containing marked interfaces and a Convergen interface, files without converter interface; oracle: generated functions = methods of the marked/Convergen-named interfaces of the input file, unmarked interfaces carried over, none-marked files rejected; non-trivial = at least two interfaces in the package; distinct by file contents"
 	return pipelineCheck(r, "C17", seed, tierN(tier, 192, 5000), opt, func(i int) *gen.Case { return gen.GenerateSelection(seed, i, opt) },
-		func(cr *caseRun) bool { return strings.Count(cr.C.Files[cr.C.SetupPath]+cr.C.Files["pk/sibling.go"], " interface {") >= 2 }, c17Oracle)
+		func(cr *caseRun) bool { return strings.Count(cr.C.Files[cr.C.SetupPath]+cr.C.Files["pk/sibling.go"], " interface {") >= 2 },
+		func(cr *caseRun) [][2]string {
+			vs := c17Oracle(cr)
+			// "any other interface in that file is carried over untouched": the declaration-level comparison of C11
+			for _, v := range c11Oracle(cr) {
+				if v[0] == "declaration-not-carried-over-intact" || v[0] == "comment-outside-converter-interfaces-lost" {
+					vs = append(vs, [2]string{"unmarked-declaration-not-carried-over-untouched", v[1]})
+				}
+			}
+			return vs
+		})
 }
